@@ -21,6 +21,7 @@ import (
 
 	"github.com/cosmos/cosmos-proto/internal/zzverif/enum"
 	"github.com/cosmos/cosmos-proto/internal/zzverif/hz"
+	"github.com/cosmos/cosmos-proto/internal/zzverif/zzyield"
 	"google.golang.org/protobuf/proto"
 	"google.golang.org/protobuf/reflect/protoreflect"
 )
@@ -141,6 +142,14 @@ func execute(md protoreflect.MessageDescriptor, variant int, ops [][]readOp, pre
 		t := &thread{id: i, resume: make(chan struct{})}
 		s.threads = append(s.threads, t)
 	}
+	// scheduling points inside the generated fast-path closures (instrumented copies): attributed to the
+	// thread the scheduler is currently running - exactly one runs at a time
+	zzyield.Set(func(what string) {
+		if s.cur != nil {
+			tYield{s, s.cur}.Point(what)
+		}
+	})
+	defer zzyield.Set(nil)
 	for i, t := range s.threads {
 		i, t := i, t
 		go func() {
@@ -151,7 +160,11 @@ func execute(md protoreflect.MessageDescriptor, variant int, ops [][]readOp, pre
 			for _, op := range ops[i] {
 				y.Point("op-boundary")
 				var r string
-				if p := hz.Catch(func() { r = op.f(px, twin) }); p != nil {
+				var target proto.Message = px
+				if strings.HasSuffix(op.name, "[fast path]") {
+					target = shared // the real object: its generated closures run, yielding at the instrumented points
+				}
+				if p := hz.Catch(func() { r = op.f(target, twin) }); p != nil {
 					r = fmt.Sprintf("PANIC: %v", p)
 				}
 				t.result = append(t.result, r)
@@ -205,6 +218,7 @@ func execute(md protoreflect.MessageDescriptor, variant int, ops [][]readOp, pre
 		res.running = append(res.running, running)
 		pick := s.threads[enabled[choice]]
 		running = pick.id
+		s.cur = pick
 		pick.resume <- struct{}{}
 		<-s.toSched // the picked thread runs until its next point or its end
 		step++
@@ -229,7 +243,11 @@ func sequentialResults(md protoreflect.MessageDescriptor, variant int, ops [][]r
 		var rs []string
 		for _, op := range ops[i] {
 			var r string
-			if p := hz.Catch(func() { r = op.f(px, twin) }); p != nil {
+			var target proto.Message = px
+			if strings.HasSuffix(op.name, "[fast path]") {
+				target = shared
+			}
+			if p := hz.Catch(func() { r = op.f(target, twin) }); p != nil {
 				r = fmt.Sprintf("PANIC: %v", p)
 			}
 			rs = append(rs, r)
@@ -327,6 +345,15 @@ func explore(h *hz.H, md protoreflect.MessageDescriptor, variant int, ops [][]re
 	rec(nil, 0)
 }
 
+func fastPathOps() []readOp {
+	var out []readOp
+	for _, o := range readOps[:3] { // Size, Marshal, Marshal(Deterministic)
+		o := o
+		out = append(out, readOp{o.name + " [fast path]", o.f})
+	}
+	return out
+}
+
 func clipS(s string) string {
 	if len(s) > 160 {
 		return s[:160] + "…"
@@ -377,6 +404,22 @@ func runScheduler(h *hz.H) {
 					}
 					jobs = append(jobs, job{md, 0, [][]readOp{{alpha[i]}, {alpha[j]}}, 2, 6000})
 				}
+			}
+		}
+	}
+	// fast-path harnesses: Size / Marshal / Marshal(Deterministic) on the REAL object, every ordered pair (thorough: also
+	// against the proxied reads), all types, preemption unbounded (few points per program)
+	fast := fastPathOps()
+	for _, md := range types {
+		for _, a := range fast {
+			for _, b := range fast {
+				jobs = append(jobs, job{md, 1, [][]readOp{{a}, {b}}, 1 << 30, 20000})
+			}
+			if h.Thorough() {
+				for _, j := range quickOps {
+					jobs = append(jobs, job{md, 0, [][]readOp{{a}, {alpha[j]}}, 3, 20000})
+				}
+				jobs = append(jobs, job{md, 1, [][]readOp{{a}, {a}, {a}}, 2, 20000})
 			}
 		}
 	}
@@ -451,7 +494,8 @@ func runShards(h *hz.H) {
 				args = append(args, "-budget", fmt.Sprintf("%ds", int(timeLeft(h)*0.6)))
 			}
 			cmd := exec.Command(self, args...)
-			cmd.Env = append(os.Environ(), "GOMAXPROCS=2")
+			// map iteration inside the shard is pinned (patched runtime): schedules replay deterministically
+			cmd.Env = append(os.Environ(), "GOMAXPROCS=2", "VERIF_MAPITER=1,0,-1,0,-1,0,1,0,0")
 			out, _ := cmd.CombinedOutput()
 			outs[i] = string(out)
 			if b, err := os.ReadFile(rp); err == nil {
@@ -495,7 +539,7 @@ func replaySchedule(h *hz.H, c c11case) {
 		return
 	}
 	byName := map[string]readOp{}
-	for _, o := range readOps {
+	for _, o := range append(append([]readOp(nil), readOps...), fastPathOps()...) {
 		byName[o.name] = o
 	}
 	var ops [][]readOp
@@ -506,6 +550,23 @@ func replaySchedule(h *hz.H, c c11case) {
 			l = append(l, byName[n])
 		}
 		ops = append(ops, l)
+	}
+	if os.Getenv("VERIF_MAPITER") == "" {
+		// pin map iteration exactly as in the exploring shard, by re-executing this replay in a child
+		self, _ := os.Executable()
+		rp := filepath.Join(os.Getenv("VERIF_SCRATCH_DIR"), fmt.Sprintf("schedreplay-%d.json", os.Getpid()))
+		cmd := exec.Command(self, "-prop", "C11", "-tier", h.Tier, "-report", rp, "-replay", h.Replay)
+		cmd.Env = append(os.Environ(), "VERIF_MAPITER=1,0,-1,0,-1,0,1,0,0")
+		cmd.Run()
+		if b, err := os.ReadFile(rp); err == nil {
+			var r hz.Report
+			if json.Unmarshal(b, &r) == nil {
+				h.MergeChild(&r)
+				return
+			}
+		}
+		h.InternalError("pinned replay child wrote no report")
+		return
 	}
 	seq := sequentialResults(md, c.Variant, ops)
 	x1 := execute(md, c.Variant, ops, c.Schedule)
